@@ -126,7 +126,7 @@ class C18:
     id = "C18"
     level = "fault_enumeration"
     variants = ("asan",)
-    rule = ("for each workload (fixed set calling every public entry point; thorough adds generated texts and API "
+    rule = ("for each workload (fixed set calling every public entry point, incl. one over CFG_SIMPLE_* options; thorough adds generated texts and API "
             "histories) the number N of allocation requests issued by confuse.c is measured, then the workload is re-run "
             "once for every k in 1..N with request k failing (exhaustive over k). Oracle: child not killed (no abort, "
             "signal, sanitizer report), every call returns, the context can afterwards be dumped, printed, parsed into "
